@@ -32,7 +32,8 @@ out.append("\n### 9.3 Assumed contracts (trusted, never counted as proved) (gene
 out.append("| function | what is trusted |\n|---|---|")
 for k, n in sorted(assumed):
     out.append(f"| `{k.split(':',1)[1]}` | {n[:260].replace('|','/')} |")
-kf = [json.loads(l) for l in open("known_findings.jsonl") if l.strip()]
+sys.path.insert(0, ROOT)
+kf = runner.load_known()
 fixed = [k for k in kf if "fixed" in k]; openk = [k for k in kf if "fixed" not in k]
 out.append(f"\n### 9.4 Genuine defects (generated from known_findings.jsonl)\n")
 cnt = defaultdict(int)
